@@ -149,6 +149,10 @@ def gen_export(r, rich=False, pre=False, many=False):
             if pre and t == sel_track:
                 rtracks[str(t)]["course_id"] = r.choice(course_ids) if r.random() < 0.5 else None
                 rtracks[str(t)]["course_instructor"] = r.choice(course_ids) if r.random() < 0.3 else None
+            if pre and t == sel_track and rtracks[str(t)]["course_id"] is not None and r.random() < 0.3:
+                # pre-assigned people without any valid choice in the track (empty list, or only courses
+                # not offered in it): they still take a place of their course
+                rtracks[str(t)]["choices"] = [] if r.random() < 0.5 else [c for c in ch if str(sel_track) not in courses[str(c)]["segments"]][:2]
             if r.random() < 0.3 and rtracks[str(t)]["course_instructor"] is not None:
                 # pre-assigned as instructor of the own course
                 rtracks[str(t)]["course_id"] = rtracks[str(t)]["course_instructor"]
